@@ -11,19 +11,22 @@ import (
 )
 
 type gen struct {
-	r   *lib.Rand
+	r    *lib.Rand
 	run_ *runner
-	idx int
+	idx  int
 	// flavour: which known-defect triggers this history may contain (so that the rest of the property keeps
 	// being checked on histories without them)
-	allowUnbond bool // C13-1: UnbondedOracle on an oracle removed by governance
-	allowReadd  bool // C13-2: AddDelegate on an oracle removed by governance and approved again
-	diligent    [2][nOracles]bool
-	govRemoved  [2][nOracles]bool
-	sawSlash    bool
-	sawRemoval  bool
-	sawMature   bool
-	nextBatch   [2]int64
+	allowUnbond  bool // C13-1: UnbondedOracle on an oracle removed by governance
+	allowReadd   bool // C13-2: AddDelegate on an oracle removed by governance and approved again
+	diligent     [2][nOracles]bool
+	govRemoved   [2][nOracles]bool
+	everUnbonded [2][nOracles]bool
+	sawSlash     bool
+	sawRemoval   bool
+	sawMature    bool
+	nextBatch    [2]int64
+	nCalls       [2]int64
+	calls        bool // outgoing bridge calls may be created (false while bridgeCallSlashing panics, C07)
 }
 
 func newGen(r *lib.Rand, run *runner, idx int) *gen {
@@ -67,6 +70,17 @@ func (g *gen) do(op Op) int {
 		return cl
 	}
 	post := g.view(op.M)
+	if cl == 0 {
+		if r0 := pre.rec(op.A); r0 != nil && r0.Slash > 0 && (op.K == "add" || op.K == "unbond") {
+			g.run_.rep.Count("penalty-paid-at-" + op.K)
+		}
+		if op.K == "bond" && g.everUnbonded[op.M][op.A] {
+			g.run_.rep.Count("re-bond-after-unbond")
+		}
+		if op.K == "unbond" {
+			g.everUnbonded[op.M][op.A] = true
+		}
+	}
 	if op.K == "gov" && cl == 0 {
 		for _, r := range pre.Recs {
 			if r.A >= 0 && r.A < nOracles && pre.inProp(r.A) && !hasInt(op.L, r.A) {
@@ -113,11 +127,11 @@ func (g *gen) run() {
 		}
 		g.do(Op{K: "params", M: m, P: g.pickParams(true)})
 		// initial governance list: 5..7 oracles
-		l := r.Perm(nOracles)[:5+r.Intn(3)]
+		l := r.Perm(nOracles)[:6+r.Intn(2)]
 		g.do(Op{K: "gov", M: m, L: l})
 		// most of them bond right away
 		for _, a := range l {
-			if r.Chance(80) {
+			if r.Chance(90) {
 				g.do(g.bondOp(m, a))
 			}
 		}
@@ -149,9 +163,9 @@ func (g *gen) run() {
 			}
 		case k < 39:
 			g.do(Op{K: "withdraw", M: m, A: g.someRecorded(m)})
-		case k < 49:
+		case k < 52:
 			g.govOp(m)
-		case k < 57:
+		case k < 58:
 			g.unbondOp(m)
 		case k < 62:
 			g.randomConfirm(m)
@@ -167,11 +181,18 @@ func (g *gen) run() {
 			if g.nextBatch[m] > 1 {
 				g.do(Op{K: "delbatch", M: m, N: 1 + int64(r.Intn(int(g.nextBatch[m]-1)))})
 			}
-		case k < 72:
+		case k < 71:
 			g.do(Op{K: "params", M: m, P: g.pickParams(false)})
-		case k < 74:
+		case k < 75 && g.calls:
+			if g.nCalls[m] > 0 && r.Chance(15) {
+				g.do(Op{K: "delcall", M: m, N: 1 + int64(r.Intn(int(g.nCalls[m])))})
+			} else {
+				g.do(Op{K: "addcall", M: m})
+				g.nCalls[m]++
+			}
+		case k < 76:
 			g.do(Op{K: "fund", M: m, A: r.Intn(nOracles), Amt: fx(int64(1 + r.Intn(50000)))})
-		case k < 78:
+		case k < 80:
 			// let the unbonding period pass
 			g.blockDt(g.run_.w.ubtime + int64(r.Intn(3))*5 - 5)
 			g.sawMature = true
@@ -246,6 +267,13 @@ func (g *gen) addOp(m int) {
 	r := g.r
 	v := g.view(m)
 	a := g.someRecorded(m)
+	if r.Chance(50) {
+		for _, c := range v.Recs {
+			if !c.Online && c.A >= 0 && c.A < nOracles && v.inProp(c.A) {
+				a = c.A
+			}
+		}
+	}
 	rec := v.rec(a)
 	if rec != nil && g.govRemoved[m][a] && !g.allowReadd {
 		return
@@ -255,7 +283,12 @@ func (g *gen) addOp(m int) {
 		pen := penalty(rec, v.Fraction)
 		max := new(big.Int).Mul(v.Threshold, big.NewInt(v.Multiple))
 		room := new(big.Int).Sub(max, rec.Amount)
-		switch r.Intn(9) {
+		switch r.Intn(12) {
+		case 7, 8, 9, 10:
+			// valid: penalty + something that fits under the maximum
+			if room.Sign() > 0 {
+				amt = new(big.Int).Add(pen, new(big.Int).Rand(r.Rand, new(big.Int).Add(room, big.NewInt(1)))).String()
+			}
 		case 0:
 			amt = "1"
 		case 1:
@@ -283,10 +316,13 @@ func (g *gen) govOp(m int) {
 	v := g.view(m)
 	cur := append([]int{}, v.Prop...)
 	var l []int
-	switch r.Intn(10) {
-	case 0, 1, 2, 3: // remove one
+	switch r.Intn(12) {
+	case 0, 1, 2, 3, 10, 11: // remove one (preferably one that has a record)
 		if len(cur) > 1 {
 			i := r.Intn(len(cur))
+			for k := 0; k < 3 && v.rec(cur[i]) == nil; k++ {
+				i = r.Intn(len(cur))
+			}
 			l = append(append([]int{}, cur[:i]...), cur[i+1:]...)
 		} else {
 			l = cur
@@ -306,11 +342,37 @@ func (g *gen) govOp(m int) {
 			l = append(append([]int{}, cur...), cur[0])
 		}
 	}
-	g.do(Op{K: "gov", M: m, L: l})
+	before := g.govRemoved[m]
+	if g.do(Op{K: "gov", M: m, L: l}) != 0 {
+		return
+	}
+	for a := 0; a < nOracles; a++ {
+		if g.govRemoved[m][a] && !before[a] {
+			g.run_.rep.Count("gov-removal-of-recorded-oracle")
+			if g.allowUnbond && r.Chance(50) {
+				// withdraw right away (before maturity), then perhaps come back: approved again, bond again
+				if r.Chance(50) {
+					g.block(1)
+				}
+				if g.do(Op{K: "unbond", M: m, A: a}) == 0 && r.Chance(60) {
+					g.do(Op{K: "gov", M: m, L: append(append([]int{}, g.view(m).Prop...), a)})
+					g.do(g.bondOp(m, a))
+				}
+			}
+		}
+	}
 }
 
 func (g *gen) unbondOp(m int) {
 	a := g.someRecorded(m)
+	if g.allowUnbond && g.r.Chance(60) {
+		for _, c := range g.r.Perm(nOracles) {
+			if g.govRemoved[m][c] {
+				a = c
+				break
+			}
+		}
+	}
 	if g.govRemoved[m][a] && !g.allowUnbond {
 		return
 	}
@@ -329,6 +391,8 @@ func (g *gen) randomConfirm(m int) {
 	op := Op{K: "confirm", M: m, Obj: "set", B: b, E: e, N: int64(1 + r.Intn(len(v.Sets)+2))}
 	if r.Chance(40) && len(v.Batches) > 0 {
 		op.Obj, op.N = "batch", v.Batches[r.Intn(len(v.Batches))].N
+	} else if r.Chance(30) && len(v.Calls) > 0 {
+		op.Obj, op.N = "call", v.Calls[r.Intn(len(v.Calls))].N
 	}
 	switch r.Intn(6) {
 	case 0:
@@ -353,13 +417,29 @@ func (g *gen) confirms() {
 				continue
 			}
 			for _, s := range v.Sets {
+				// what the property expects of a diligent oracle: every set created since it joined
+				// (now and then also an older one)
+				if s.H < rec.Start && !g.r.Chance(10) {
+					continue
+				}
 				if s.N > v.SlashedSet && !hasInt(s.Conf, rec.E) && !g.r.Chance(3) {
 					g.do(Op{K: "confirm", M: m, Obj: "set", N: s.N, B: rec.B, E: rec.E})
 				}
 			}
 			for _, s := range v.Batches {
+				if s.H < rec.Start && !g.r.Chance(10) {
+					continue
+				}
 				if s.H > v.SlashedBat && !hasInt(s.Conf, rec.E) && !g.r.Chance(3) {
 					g.do(Op{K: "confirm", M: m, Obj: "batch", N: s.N, B: rec.B, E: rec.E})
+				}
+			}
+			for _, s := range v.Calls {
+				if s.H < rec.Start && !g.r.Chance(10) {
+					continue
+				}
+				if s.N >= v.SlashedCall && !hasInt(s.Conf, rec.E) && !g.r.Chance(3) {
+					g.do(Op{K: "confirm", M: m, Obj: "call", N: s.N, B: rec.B, E: rec.E})
 				}
 			}
 		}
